@@ -195,8 +195,8 @@ pub fn gen_dict(rng: &mut Rng, cfg: &GenCfg) -> ADict {
         }
     }
 
-    let nr = 1 + rng.below(cfg.max_ids);
-    let nl = 1 + rng.below(cfg.max_ids);
+    let nr = if cfg.max_ids > 8 { cfg.max_ids / 2 + rng.below(cfg.max_ids / 2) } else { 1 + rng.below(cfg.max_ids) };
+    let nl = if cfg.max_ids > 8 { cfg.max_ids / 2 + rng.below(cfg.max_ids / 2) } else { 1 + rng.below(cfg.max_ids) };
     let kind = if cfg.conn_kind == 3 { rng.below(3) as u8 } else { cfg.conn_kind };
     let conn = match kind {
         0 => AConn::Matrix { nr, nl, mat: (0..nr * nl).map(|_| gen_cost(rng) / if rng.chance(1, 2) { 1 } else { 8 }).collect() },
